@@ -55,6 +55,58 @@ func (r *rng) bytes(n int) []byte {
 func (r *rng) chance(num, den int) bool { return r.intn(den) < num }
 func (r *rng) pick(xs []int) int        { return xs[r.intn(len(xs))] }
 
+// ---------- literals of the library's source (written by bin/check), used as a dictionary ----------
+
+var (
+	litInts []int
+	litStrs [][]byte
+)
+
+func init() {
+	path := os.Getenv("VERIF_LITERALS")
+	if path == "" {
+		return
+	}
+	data, err := os.ReadFile(path)
+	if err != nil {
+		return
+	}
+	for _, l := range strings.Split(string(data), "\n") {
+		switch {
+		case strings.HasPrefix(l, "i "):
+			if v, err := strconv.Atoi(l[2:]); err == nil {
+				litInts = append(litInts, v)
+			}
+		case strings.HasPrefix(l, "s "):
+			b := make([]byte, len(l[2:])/2)
+			ok := true
+			for k := range b {
+				v, err := strconv.ParseUint(l[2+2*k:4+2*k], 16, 8)
+				if err != nil {
+					ok = false
+					break
+				}
+				b[k] = byte(v)
+			}
+			if ok {
+				litStrs = append(litStrs, b)
+			}
+		}
+	}
+}
+
+// litIntsIn: the source's integer literals within [lo, hi], at most max of them (the largest ones first: the
+// small ones are exercised anyway)
+func litIntsIn(lo, hi, max int) []int {
+	var out []int
+	for i := len(litInts) - 1; i >= 0 && len(out) < max; i-- {
+		if v := litInts[i]; v >= lo && v <= hi {
+			out = append(out, v)
+		}
+	}
+	return out
+}
+
 // ---------- output ----------
 
 type out struct {
